@@ -77,27 +77,36 @@ Proof.
 Qed.
 Print Assumptions C04_sorted_source.
 
-(* the partition limit: 50 or more matching partitions -> the cursor is refused (never a silent subset);
-   fewer -> every matching partition is a source of the cursor, in the order they were met *)
+(* the partition limit: more than 50 matching partitions -> the cursor is refused (never a silent subset);
+   up to 50 (exactly 50 included) -> every matching partition is a source of the cursor, in the order they were met *)
 Theorem C04_limit : forall (A : Type) (matching : list A),
-  ((length matching >= merge_limit)%nat -> get_journals merge_limit matching = None) /\
-  ((length matching < merge_limit)%nat -> get_journals merge_limit matching = Some matching).
+  ((length matching > merge_limit)%nat -> get_journals merge_limit matching = None) /\
+  ((length matching <= merge_limit)%nat -> get_journals merge_limit matching = Some matching).
 Proof.
-  intros A m. rewrite get_journals_spec by (unfold merge_limit; lia). split; intros H.
-  - destruct (Nat.ltb_spec (length m) merge_limit); [lia|reflexivity].
-  - destruct (Nat.ltb_spec (length m) merge_limit); [reflexivity|lia].
+  intros A m. rewrite get_journals_spec. split; intros H.
+  - destruct (Nat.leb_spec (length m) merge_limit); [lia|reflexivity].
+  - destruct (Nat.leb_spec (length m) merge_limit); [reflexivity|lia].
 Qed.
 Print Assumptions C04_limit.
 
-(* new_cursor: refused at the limit, otherwise the tree over all sources *)
+(* the comparison before its repair (`len(res) == maxLimit` after adding the partition met): exactly 50 matching partitions
+   were refused, although the limit and the text of the error ("no more than 50 journals") allow them *)
+Theorem C04_limit_exact_refused_before_repair : forall (A : Type) (matching : list A),
+  length matching = merge_limit -> get_journals_eq merge_limit matching = None /\ get_journals merge_limit matching = Some matching.
+Proof.
+  intros A m H. rewrite get_journals_eq_spec by (unfold merge_limit; lia). rewrite get_journals_spec. rewrite H. split; reflexivity.
+Qed.
+Print Assumptions C04_limit_exact_refused_before_repair.
+
+(* new_cursor: refused above the limit, otherwise the tree over all sources *)
 Theorem C04_new_cursor : forall srcs f p,
-  ((length srcs >= merge_limit)%nat -> new_cursor srcs f p = None) /\
-  ((0 < length srcs < merge_limit)%nat -> exists t, build_tree (map (fun s => MLeaf (fst s) (snd s)) srcs) = Some t /\
+  ((length srcs > merge_limit)%nat -> new_cursor srcs f p = None) /\
+  ((0 < length srcs <= merge_limit)%nat -> exists t, build_tree (map (fun s => MLeaf (fst s) (snd s)) srcs) = Some t /\
       new_cursor srcs f p = Some (mkCur (apply_pos p t) f None false (length srcs))).
 Proof.
-  intros srcs f p. unfold new_cursor. rewrite get_journals_spec by (unfold merge_limit; lia). split; intros H.
-  - destruct (Nat.ltb_spec (length srcs) merge_limit); [lia|reflexivity].
-  - destruct (Nat.ltb_spec (length srcs) merge_limit); [|lia].
+  intros srcs f p. unfold new_cursor. rewrite get_journals_spec. split; intros H.
+  - destruct (Nat.leb_spec (length srcs) merge_limit); [lia|reflexivity].
+  - destruct (Nat.leb_spec (length srcs) merge_limit); [|lia].
     destruct (build_tree_spec srcs) as (t & E & _ & _); [destruct srcs; [cbn in H; lia|discriminate]|].
     exists t. rewrite E. auto.
 Qed.
@@ -122,18 +131,18 @@ Print Assumptions C04_open_failure.
 (* partitions removed while a request selects its sources (dropped by TRUNCATE / deleted from the tag index after the visit took
    its snapshot of the matching partitions, before the visit reaches them): they are skipped, and the walk goes on -- a result
    is exactly the snapshot without the removed ones, so every matching partition that still exists is a source; and when
-   these all open and are fewer than the limit there is a result *)
+   these all open and are not more than the limit there is a result *)
 Theorem C04_removed_during_visit : forall (A : Type) (removed opens : A -> bool) (snap : list A),
   (forall l, get_journals_r removed opens merge_limit snap = Some l ->
      l = filter (fun x => negb (removed x)) snap /\ (forall x, In x l -> opens x = true) /\
      (forall x, In x snap -> removed x = false -> In x l)) /\
   ((forall x, In x snap -> removed x = false -> opens x = true) ->
-   (length (filter (fun x => negb (removed x)) snap) < merge_limit)%nat ->
+   (length (filter (fun x => negb (removed x)) snap) <= merge_limit)%nat ->
    get_journals_r removed opens merge_limit snap = Some (filter (fun x => negb (removed x)) snap)).
 Proof.
   intros A removed opens snap. split.
   - intros l H. exact (get_journals_r_some removed opens merge_limit snap l H).
-  - intros Ho Hl. apply get_journals_r_all; [unfold merge_limit; lia|exact Ho|exact Hl].
+  - intros Ho Hl. apply get_journals_r_all; [exact Ho|exact Hl].
 Qed.
 Print Assumptions C04_removed_during_visit.
 
